@@ -252,4 +252,407 @@ theorem indentNl_ok (env : Env) (h : IndentOk env.config) (i : Indent) :
   unfold indentNl?
   rw [RF.Lemmas.Shape.to_string_with_newline_eq i env.config h]
 
+/-! ## What has been pushed -/
+
+theorem render_append (a b : List Piece) : render (a ++ b) = render a ++ render b := by
+  simp [render]
+
+theorem render_single (t : Tag) (s : List Char) : render [⟨t, s⟩] = s := by simp [render]
+
+theorem render_nil : render [] = [] := rfl
+
+/-- `v` is `v0` after the pieces `out` were pushed. -/
+structure Wrote (v0 v : Vis) (out : List Piece) : Prop where
+  buffer : v.buffer = v0.buffer ++ render out
+  log : v.log = v0.log ++ out
+  indent : v.blockIndent = v0.blockIndent
+  pos : v.lastPos = v0.lastPos
+
+theorem Wrote.refl (v : Vis) : Wrote v v [] := ⟨by simp [render], by simp, rfl, rfl⟩
+
+theorem Wrote.push {v0 v : Vis} {out : List Piece} (h : Wrote v0 v out) (t : Tag) (s : List Char) :
+    Wrote v0 (v.push t s) (out ++ [⟨t, s⟩]) := by
+  refine ⟨?_, ?_, h.indent, h.pos⟩
+  · simp [Vis.push, h.buffer, render_append, render_single]
+  · simp [Vis.push, h.log]
+
+theorem Wrote.pushVerticalSpaces {v0 v : Vis} {out : List Piece} (h : Wrote v0 v out) (env : Env)
+    (n : Nat) :
+    Wrote v0 (v.pushVerticalSpaces env n) (out ++ [⟨.vspace, List.replicate
+      (RF.Newline.pushVerticalSpaces (RF.Newline.trailingNewlines v.buffer) n env.lower env.upper) '\n'⟩]) :=
+  h.push _ _
+
+/-! ## process_missing_code -/
+
+theorem nl_size : ('\n' : Char).utf8Size = 1 := by decide
+
+/-- The loop of `process_missing_code` from a state in which `line_start` is on a character boundary in
+front of the current position: it does not panic, keeps that, and what it pushed plus what is pending
+(`cur'`, from `line_start` on) has the non-blank characters of what was pending plus what it read. -/
+theorem pmcLoop_spec (snippet : List Char) : ∀ (rest p cur tail : List Char) (i : Nat) (st : RF.Missed.Status)
+    (v0 v : Vis) (out : List Piece),
+    snippet = p ++ cur ++ rest ++ tail → i = utf8Len (p ++ cur) → st.line_start = utf8Len p →
+    (∀ lw, st.last_wspace = some lw → ∃ c1 c2, cur = c1 ++ c2 ∧ lw = utf8Len (p ++ c1) ∧ AllWs c2) →
+    Wrote v0 v out →
+    ∃ st' v' out' p' cur', pmcLoop snippet i rest st v = some (st', v') ∧ Wrote v0 v' (out ++ out') ∧
+      p ++ cur ++ rest = p' ++ cur' ∧ st'.line_start = utf8Len p' ∧
+      squeeze (render out') ++ squeeze cur' = squeeze cur ++ squeeze rest ∧
+      (∀ q ∈ out', q.tag = .code)
+  | [], p, cur, tail, i, st, v0, v, out, _, _, hls, _, hw => by
+    refine ⟨st, v, [], p, cur, rfl, by simpa using hw, by simp, hls, by simp [render, squeeze], by simp⟩
+  | c :: rest, p, cur, tail, i, st, v0, v, out, hs, hi, hls, hlw, hw => by
+    by_cases hc : c = '\n'
+    · subst hc
+      have hi1 : i + 1 = utf8Len (p ++ (cur ++ ['\n']) ++ []) := by
+        rw [hi]; simp [utf8Len_append, utf8Len, nl_size]; omega
+      cases hl : st.last_wspace with
+      | some lw =>
+        obtain ⟨c1, c2, hcur, hlwv, hc2⟩ := hlw lw hl
+        have hsl : sliceBytes? snippet st.line_start lw = some c1 := by
+          apply sliceBytes_of_split snippet p c1 (c2 ++ '\n' :: rest ++ tail)
+          · rw [hs, hcur]; simp [List.append_assoc]
+          · exact hls
+          · rw [hlwv, utf8Len_append]
+        have hw' := (hw.push .code c1).push .code ['\n']
+        obtain ⟨st', v', out', p', cur', hrun, hwr, hsplit, hls', hsq, htag⟩ :=
+          pmcLoop_spec snippet rest (p ++ (cur ++ ['\n'])) [] tail (i + 1)
+            { line_start := i + 1, last_wspace := none, cur_line := st.cur_line + 1 } v0 _ _
+            (by rw [hs]; simp [List.append_assoc]) hi1
+            (by show i + 1 = _; rw [hi]; simp [utf8Len_append, utf8Len, nl_size]; omega)
+            (by intro lw h; simp at h) hw'
+        refine ⟨st', v', [⟨.code, c1⟩, ⟨.code, ['\n']⟩] ++ out', p', cur', ?_, ?_, ?_, hls', ?_, ?_⟩
+        · simp only [pmcLoop, if_true, hl, hsl]; exact hrun
+        · simpa [List.append_assoc] using hwr
+        · rw [← hsplit]; simp [List.append_assoc]
+        · rw [render_append, squeeze_append]
+          have h1 : squeeze (render [⟨Tag.code, c1⟩, ⟨Tag.code, ['\n']⟩]) = squeeze cur := by
+            rw [hcur, squeeze_append, squeeze_of_allWs hc2]
+            simp [render, squeeze_append]
+            exact squeeze_of_allWs (by intro x hx; simp at hx; subst hx; exact isWs_nl)
+          rw [h1, List.append_assoc, hsq]
+          simp [squeeze_append, squeeze_nil]
+          have : squeeze ('\n' :: rest) = squeeze rest := by
+            show squeeze (['\n'] ++ rest) = _
+            rw [squeeze_append, squeeze_of_allWs (by intro x hx; simp at hx; subst hx; exact isWs_nl)]; rfl
+          rw [this]
+        · intro q hq
+          rcases List.mem_append.mp hq with h | h
+          · simp at h; rcases h with rfl | rfl <;> rfl
+          · exact htag q h
+      | none =>
+        have hsl : sliceBytes? snippet st.line_start (i + 1) = some (cur ++ ['\n']) := by
+          apply sliceBytes_of_split snippet p (cur ++ ['\n']) (rest ++ tail)
+          · rw [hs]; simp [List.append_assoc]
+          · exact hls
+          · rw [hi]; simp [utf8Len_append, utf8Len, nl_size]; omega
+        have hw' := hw.push .code (cur ++ ['\n'])
+        obtain ⟨st', v', out', p', cur', hrun, hwr, hsplit, hls', hsq, htag⟩ :=
+          pmcLoop_spec snippet rest (p ++ (cur ++ ['\n'])) [] tail (i + 1)
+            { line_start := i + 1, last_wspace := none, cur_line := st.cur_line + 1 } v0 _ _
+            (by rw [hs]; simp [List.append_assoc]) hi1
+            (by show i + 1 = _; rw [hi]; simp [utf8Len_append, utf8Len, nl_size]; omega)
+            (by intro lw h; simp at h) hw'
+        refine ⟨st', v', [⟨.code, cur ++ ['\n']⟩] ++ out', p', cur', ?_, ?_, ?_, hls', ?_, ?_⟩
+        · simp only [pmcLoop, if_true, hl, hsl]; exact hrun
+        · simpa [List.append_assoc] using hwr
+        · rw [← hsplit]; simp [List.append_assoc]
+        · rw [render_append, squeeze_append, List.append_assoc, hsq]
+          simp [render, squeeze_append, squeeze_nil]
+          have h1 : squeeze ['\n'] = [] :=
+            squeeze_of_allWs (by intro x hx; simp at hx; subst hx; exact isWs_nl)
+          have : squeeze ('\n' :: rest) = squeeze rest := by
+            show squeeze (['\n'] ++ rest) = _
+            rw [squeeze_append, h1]; rfl
+          rw [this, h1]; simp
+        · intro q hq
+          rcases List.mem_append.mp hq with h | h
+          · simp at h; subst h; rfl
+          · exact htag q h
+    · have hi1 : i + c.utf8Size = utf8Len (p ++ (cur ++ [c])) := by
+        rw [hi]; simp [utf8Len_append, utf8Len]; omega
+      have hs1 : snippet = p ++ (cur ++ [c]) ++ rest ++ tail := by rw [hs]; simp [List.append_assoc]
+      by_cases hws : (isWs c && st.last_wspace.isNone) = true
+      · obtain ⟨st', v', out', p', cur', hrun, hwr, hsplit, hls', hsq, htag⟩ :=
+          pmcLoop_spec snippet rest p (cur ++ [c]) tail (i + c.utf8Size)
+            { st with last_wspace := some i } v0 v out hs1 hi1 hls
+            (by
+              intro lw h
+              simp at h; subst h
+              refine ⟨cur, [c], rfl, hi, ?_⟩
+              intro x hx; simp at hx; subst hx
+              simp at hws; exact hws.1) hw
+        refine ⟨st', v', out', p', cur', ?_, hwr, ?_, hls', ?_, htag⟩
+        · simp only [pmcLoop, hc, if_false, hws, if_true]; exact hrun
+        · rw [← hsplit]; simp [List.append_assoc]
+        · rw [hsq]; simp only [squeeze_append, List.append_assoc]
+          show squeeze cur ++ (squeeze [c] ++ squeeze rest) = squeeze cur ++ squeeze ([c] ++ rest)
+          rw [squeeze_append]
+      · obtain ⟨st', v', out', p', cur', hrun, hwr, hsplit, hls', hsq, htag⟩ :=
+          pmcLoop_spec snippet rest p (cur ++ [c]) tail (i + c.utf8Size)
+            { st with last_wspace := none } v0 v out hs1 hi1 hls
+            (by intro lw h; simp at h) hw
+        refine ⟨st', v', out', p', cur', ?_, hwr, ?_, hls', ?_, htag⟩
+        · simp only [pmcLoop, hc, if_false, hws]; exact hrun
+        · rw [← hsplit]; simp [List.append_assoc]
+        · rw [hsq]; simp only [squeeze_append, List.append_assoc]
+          show squeeze cur ++ (squeeze [c] ++ squeeze rest) = squeeze cur ++ squeeze ([c] ++ rest)
+          rw [squeeze_append]
+
+/-- Without a line break the loop pushes nothing. -/
+theorem pmcLoop_noNl (snippet : List Char) : ∀ (rest : List Char) (i : Nat) (st : RF.Missed.Status)
+    (v : Vis), (∀ c ∈ rest, c ≠ '\n') → ∃ st', pmcLoop snippet i rest st v = some (st', v)
+  | [], _, st, v, _ => ⟨st, rfl⟩
+  | c :: rest, i, st, v, h => by
+    have hc : c ≠ '\n' := h c (by simp)
+    have hr : ∀ x ∈ rest, x ≠ '\n' := fun x hx => h x (by simp [hx])
+    simp only [pmcLoop, hc, if_false]
+    split
+    · exact pmcLoop_noNl snippet rest _ _ v hr
+    · exact pmcLoop_noNl snippet rest _ _ v hr
+
+/-- `rewrite_comment` keeps the non-blank characters of a comment (true of the rewriter under the
+default comment options: `RF.Lemmas.ListsRc.rewriteCommentLight_content`). -/
+def RcContent (rc : Rc) : Prop := ∀ c bs sh r, rc c bs sh = some r → squeeze r = squeeze c
+
+theorem squeeze_rcOr (env : Env) (h : RcContent env.rc) (c : List Char) (sh : Shape) :
+    squeeze (rcOr env c sh) = squeeze c := by
+  unfold rcOr
+  cases hr : env.rc c false sh with
+  | none => rfl
+  | some r => exact h c false sh r hr
+
+/-- Every `vspace` piece of `out` is what `push_vertical_spaces` computes from the run of line breaks
+at the end of the buffer (`b0` followed by the pieces in front of it) for some request. -/
+def VspaceOk (env : Env) (b0 : List Char) (out : List Piece) : Prop :=
+  ∀ l1 t l2, out = l1 ++ ⟨.vspace, t⟩ :: l2 →
+    ∃ n, t = List.replicate (RF.Newline.pushVerticalSpaces
+      (RF.Newline.trailingNewlines (b0 ++ render l1)) n env.lower env.upper) '\n'
+
+theorem VspaceOk.nil (env : Env) (b0 : List Char) : VspaceOk env b0 [] := by
+  intro l1 t l2 h; simp at h
+
+/-- Appending pieces that are not vertical spaces. -/
+theorem VspaceOk.append {env : Env} {b0 : List Char} {out o : List Piece} (h : VspaceOk env b0 out)
+    (ho : ∀ q ∈ o, q.tag ≠ .vspace) : VspaceOk env b0 (out ++ o) := by
+  intro l1 t l2 heq
+  rcases List.append_eq_append_iff.mp heq with ⟨a, _, h2⟩ | ⟨a, h1, h2⟩
+  · have : (⟨.vspace, t⟩ : Piece) ∈ o := by rw [h2]; simp
+    exact absurd rfl (ho _ this)
+  · cases a with
+    | nil =>
+      have : (⟨.vspace, t⟩ : Piece) ∈ o := by
+        have : o = ⟨.vspace, t⟩ :: l2 := by simpa using h2.symm
+        rw [this]; simp
+      exact absurd rfl (ho _ this)
+    | cons x a =>
+      have hx : x = ⟨.vspace, t⟩ := by
+        have := h2; simp at this; exact this.1.symm
+      subst hx
+      exact h l1 t a h1
+
+/-- Appending the piece `push_vertical_spaces` pushes. -/
+theorem VspaceOk.vspace {env : Env} {b0 : List Char} {out : List Piece} (h : VspaceOk env b0 out)
+    (n : Nat) :
+    VspaceOk env b0 (out ++ [⟨.vspace, List.replicate (RF.Newline.pushVerticalSpaces
+      (RF.Newline.trailingNewlines (b0 ++ render out)) n env.lower env.upper) '\n'⟩]) := by
+  intro l1 t l2 heq
+  rcases List.append_eq_append_iff.mp heq with ⟨a, h1, h2⟩ | ⟨a, h1, h2⟩
+  · cases a with
+    | nil =>
+      have h3 : l1 = out := by simpa using h1
+      subst h3
+      refine ⟨n, ?_⟩
+      have := h2; simp at this; exact this.1.symm
+    | cons x a =>
+      exfalso
+      have := congrArg List.length h2
+      simp at this
+  · cases a with
+    | nil =>
+      have h3 : out = l1 := by simpa using h1
+      subst h3
+      refine ⟨n, ?_⟩
+      have := h2; simp at this; exact this.1
+    | cons x a =>
+      have hx : x = ⟨.vspace, t⟩ := by
+        have := h2; simp at this; exact this.1.symm
+      subst hx
+      exact h l1 t a h1
+
+/-! ## The loop invariant of `write_snippet_inner` -/
+
+/-- After the part `done` of the snippet has been consumed (`k` = the kind of the slice that comes
+next): `out` has been pushed; `done = p ++ q` with `line_start` at the end of `p` and `q` white space;
+`last_wspace` is clear in front of a `Normal` slice; the non-blank characters written are those of
+`done` (when the comment rewriter keeps them); every `vspace` piece is a `push_vertical_spaces`. -/
+structure Inv (env : Env) (v0 : Vis) (k : CodeCharKind) (done : List Char) (st : RF.Missed.Status)
+    (v : Vis) (out : List Piece) : Prop where
+  wrote : Wrote v0 v out
+  split : ∃ p q, done = p ++ q ∧ AllWs q ∧ st.line_start = utf8Len p
+  lw : k = .normal → st.last_wspace = none
+  content : RcContent env.rc → squeeze (render out) = squeeze done
+  vs : VspaceOk env v0.buffer out
+
+theorem utf8Len_inj_prefix : ∀ (a b x y : List Char), a ++ x = b ++ y → utf8Len a = utf8Len b → a = b
+  | [], [], _, _, _, _ => rfl
+  | [], c :: b, _, _, _, h => by
+    have := utf8Size_pos c; simp [utf8Len] at h; omega
+  | c :: a, [], _, _, _, h => by
+    have := utf8Size_pos c; simp [utf8Len] at h; omega
+  | c :: a, d :: b, x, y, h, hl => by
+    simp at h
+    obtain ⟨rfl, h⟩ := h
+    have : utf8Len a = utf8Len b := by simp [utf8Len] at hl; omega
+    rw [utf8Len_inj_prefix a b x y h this]
+
+/-- `process_missing_code` on the slice `sub` that follows `done`. -/
+theorem processMissingCode_spec (env : Env) (hind : IndentOk env.config)
+    (snippet done sub tail : List Char) (hs : snippet = done ++ sub ++ tail)
+    (st : RF.Missed.Status) (v0 v : Vis) (out : List Piece)
+    (hinv : Inv env v0 .normal done st v out) :
+    ∃ st' v' o, processMissingCode env snippet sub (utf8Len done) st v = some (st', v') ∧
+      Inv env v0 .comment (done ++ sub) st' v' (out ++ o) ∧
+      (∀ q ∈ o, q.tag = .code ∨ (q.tag = .blank ∧ AllWs q.text)) ∧
+      (AllWs sub → (∀ c ∈ sub, c ≠ '\n') → o = []) := by
+  obtain ⟨p, q, hd, hq, hls⟩ := hinv.split
+  have hlw := hinv.lw rfl
+  obtain ⟨st1, v1, o1, p', cur', hrun, hw1, hsplit, hls1, hsq, htag⟩ :=
+    pmcLoop_spec snippet sub p q tail (utf8Len done) st v0 v out (by rw [hs, hd]) (by rw [hd]) hls
+      (by intro lw h; rw [hlw] at h; cases h) hinv.wrote
+  have hsl : sliceBytes? snippet st1.line_start (utf8Len sub + utf8Len done) = some cur' := by
+    apply sliceBytes_of_split snippet p' cur' tail
+    · rw [hs, hd, hsplit]
+    · exact hls1
+    · have := congrArg utf8Len hsplit
+      rw [← hd] at this
+      simp only [utf8Len_append] at this
+      omega
+  have hsq' : squeeze (render o1) ++ squeeze cur' = squeeze sub := by
+    rw [hsq, squeeze_of_allWs hq]; rfl
+  -- nothing is pushed by the loop when there is no line break
+  have hnone : (∀ c ∈ sub, c ≠ '\n') → o1 = [] := by
+    intro hnl
+    obtain ⟨st'', hrun'⟩ := pmcLoop_noNl snippet sub (utf8Len done) st v hnl
+    rw [hrun] at hrun'
+    have hv : v1 = v := by injection hrun' with h; exact (Prod.mk.inj h).2
+    have h1 := hw1.log
+    rw [hv, hinv.wrote.log] at h1
+    have : v0.log ++ out ++ [] = v0.log ++ out ++ o1 := by simpa [List.append_assoc] using h1
+    exact (List.append_cancel_left this).symm
+  unfold processMissingCode
+  rw [hrun]
+  simp only
+  rw [hsl]
+  simp only
+  cases hrem : (trim cur').isEmpty with
+  | true =>
+    have hcur : AllWs cur' := (trim_nil_iff cur').mp (by simpa using hrem)
+    refine ⟨st1, v1, o1, by simp, ?_, ?_, ?_⟩
+    · refine ⟨hw1, ⟨p', cur', by rw [hd, hsplit], hcur, hls1⟩, (by intro h; cases h), ?_, ?_⟩
+      · intro hrc
+        rw [render_append, squeeze_append, hinv.content hrc, squeeze_append]
+        rw [← hsq', squeeze_of_allWs hcur]; simp
+      · exact hinv.vs.append (by intro x hx; rw [htag x hx]; decide)
+    · intro x hx; exact Or.inl (htag x hx)
+    · intro _ hnl; exact hnone hnl
+  | false =>
+    obtain ⟨ind, hindS, hindW⟩ := indentStr_ok env hind v1.blockIndent
+    refine ⟨{ st1 with line_start := utf8Len sub + utf8Len done }, (v1.push .blank ind).push .code (trim cur'),
+      o1 ++ [⟨.blank, ind⟩, ⟨.code, trim cur'⟩], by simp [hindS], ?_, ?_, ?_⟩
+    · refine ⟨?_, ⟨done ++ sub, [], by simp, allWs_nil, (by simp [utf8Len_append]; omega)⟩,
+        (by intro h; cases h), ?_, ?_⟩
+      · have := (hw1.push .blank ind).push .code (trim cur')
+        simpa [List.append_assoc] using this
+      · intro hrc
+        rw [← List.append_assoc, render_append, squeeze_append, render_append, squeeze_append,
+          hinv.content hrc, squeeze_append]
+        have h2 : squeeze (render [⟨Tag.blank, ind⟩, ⟨Tag.code, trim cur'⟩]) = squeeze cur' := by
+          simp only [render, List.flatMap_cons, List.flatMap_nil, List.append_nil, squeeze_append,
+            squeeze_of_allWs hindW, squeeze_trim, List.nil_append]
+        rw [h2, List.append_assoc, hsq']
+      · rw [← List.append_assoc]
+        apply (hinv.vs.append (by intro x hx; rw [htag x hx]; decide)).append
+        intro x hx
+        simp at hx
+        rcases hx with rfl | rfl <;> simp
+    · intro x hx
+      rcases List.mem_append.mp hx with h | h
+      · exact Or.inl (htag x h)
+      · simp at h
+        rcases h with rfl | rfl
+        · exact Or.inr ⟨rfl, hindW⟩
+        · exact Or.inl rfl
+    · intro hsub hnl
+      exfalso
+      have h1 := hnone hnl
+      rw [h1] at hsq'
+      have : squeeze cur' = [] := by
+        rw [squeeze_of_allWs hsub] at hsq'
+        simp [render, squeeze_nil] at hsq'
+        exact hsq'
+      have := (trim_nil_iff cur').mpr (allWs_of_squeeze this)
+      simp [this] at hrem
+
+/-! ## process_comment -/
+
+/-- Pieces of fixed white space. -/
+def BlankPieces (l : List Piece) : Prop := ∀ q ∈ l, q.tag = .blank ∧ AllWs q.text
+
+theorem BlankPieces.nil : BlankPieces [] := by intro q h; simp at h
+
+theorem BlankPieces.single {s : List Char} (h : AllWs s) : BlankPieces [⟨.blank, s⟩] := by
+  intro q hq; simp at hq; subst hq; exact ⟨rfl, h⟩
+
+theorem BlankPieces.append {a b : List Piece} (ha : BlankPieces a) (hb : BlankPieces b) :
+    BlankPieces (a ++ b) := by
+  intro q hq
+  rcases List.mem_append.mp hq with h | h
+  · exact ha q h
+  · exact hb q h
+
+theorem BlankPieces.squeeze {l : List Piece} (h : BlankPieces l) : squeeze (render l) = [] := by
+  induction l with
+  | nil => rfl
+  | cons x l ih =>
+    have hx := h x (by simp)
+    have : render (x :: l) = x.text ++ render l := by simp [render]
+    rw [this, squeeze_append, squeeze_of_allWs hx.2, ih (fun q hq => h q (by simp [hq]))]; rfl
+
+theorem BlankPieces.noVspace {l : List Piece} (h : BlankPieces l) : ∀ q ∈ l, q.tag ≠ .vspace := by
+  intro q hq; rw [(h q hq).1]; decide
+
+theorem allWs_single {c : Char} (h : isWs c = true) : AllWs [c] := by
+  intro x hx; simp at hx; subst hx; exact h
+
+/-- The tail of `process_comment`: no panic; at most a `"\n"` is pushed; `line_start` is the end of
+the comment and `last_wspace` is clear. -/
+theorem commentTail_spec (snippet done sub tail : List Char) (hs : snippet = done ++ sub ++ tail)
+    (st : RF.Missed.Status) (v : Vis) :
+    ∃ st' post, commentTail snippet sub (utf8Len done) st v =
+        some (st', post.foldl (fun v q => v.push q.tag q.text) v) ∧
+      BlankPieces post ∧ st'.line_start = utf8Len (done ++ sub) ∧ st'.last_wspace = none := by
+  have hle : utf8Len done + utf8Len sub ≤ utf8Len snippet := by
+    rw [hs]; simp only [utf8Len_append]; omega
+  have hdrop : dropBytes? (utf8Len done + utf8Len sub) snippet = some tail :=
+    dropBytes_of_split snippet (done ++ sub) tail _ hs (by rw [utf8Len_append])
+  have hnl : BlankPieces [⟨.blank, ['\n']⟩] := BlankPieces.single (allWs_single isWs_nl)
+  unfold commentTail
+  simp only [hle, if_true, hdrop]
+  split
+  · split
+    · split
+      · exact ⟨_, [⟨.blank, ['\n']⟩], rfl, hnl, by simp [utf8Len_append], rfl⟩
+      · exact ⟨_, [], rfl, BlankPieces.nil, by simp [utf8Len_append], rfl⟩
+    · exact ⟨_, [⟨.blank, ['\n']⟩], rfl, hnl, by simp [utf8Len_append], rfl⟩
+  · exact ⟨_, [⟨.blank, ['\n']⟩], rfl, hnl, by simp [utf8Len_append], rfl⟩
+
+theorem wrote_foldl {v0 v : Vis} {out : List Piece} (h : Wrote v0 v out) : ∀ (post : List Piece),
+    Wrote v0 (post.foldl (fun v q => v.push q.tag q.text) v) (out ++ post) := by
+  intro post
+  induction post generalizing v out with
+  | nil => simpa using h
+  | cons x post ih =>
+    have := ih (h.push x.tag x.text)
+    simpa [List.append_assoc] using this
+
 end RF.Lemmas.Missed
